@@ -360,3 +360,16 @@ Definition wait_timed (per_pipe : bool) (k : kind) (T : nat) (ds : list nat) (e 
   else if fst (poll_loop per_pipe T 0 ds) then
          let '(l, q) := release_all (ws e) (eq e) in wait_core false (mkE (st e) (closed e) l q (got e))
        else (Timeout, mkE DEFAULT (closed e) (ws e) (eq e) (got e)).
+
+(* ---- the synchronous wrappers reset() / step() / call() / get_attr():  self.X_async(...); return self.X_wait() ---- *)
+Definition sync (k : kind) (e : env) : outcome * env :=
+  let '(o1, e1) := async k e in
+  match o1 with Ok => wait k false e1 | _ => (o1, e1) end.
+
+(* ---- calls rejected because of their ARGUMENTS before anything else is looked at:
+   set_attr(name, values) with len(values) != num_envs (ValueError) and reset_async(seed=[...]) of the wrong length
+   (AssertionError) test the arguments right after _assert_is_running and before the pending-call guard:
+   closed -> ClosedEnvironmentError, otherwise the argument error; nothing is sent, nothing changes.
+   [true] = the argument error was raised. *)
+Definition arg_rejected (e : env) : (bool * outcome) * env :=
+  if closed e then ((false, ClosedErr), e) else ((true, Ok), e).
